@@ -21,7 +21,7 @@ RULE = ("Two generators. (generic) files of key=value lines over the SpikeGLX gr
 ASSUMPTIONS = ["numeric values made only of [0-9,.] that are neither a scalar nor an integer list (e.g. '1,,2', ',') are "
                "outside the property's grammar and are not generated",
                "exponent notation is never generated as input (SpikeGLX writes positional decimals)"]
-BUDGET = {"quick": 8000, "thorough": 400000}
+BUDGET = {"quick": 16000, "thorough": 400000}
 
 _KEYCHARS = "abcdefghijklmnopqrstuvwxyzABCDEFGHIJKLMNOPQRSTUVWXYZ0123456789_.-:;()[] /"
 _STRCHARS = "abcdefghijklmnopqrstuvwxyzABCDEFGHIJKLMNOPQRSTUVWXYZ0123456789_.-:;()[]{} /=,~+*#@!?<>\\'\"%&|^$"
